@@ -42,7 +42,7 @@ const (
 // well-formed: optional spaces; one or more components "<digits> <name>" in
 // strictly descending multiplier order; only the base component may carry a
 // fraction. unspecified (the statement does not say): base name omitted, a unit
-// repeated, fraction on a non-base component, counts with leading zeros or sign.
+// repeated, fraction on a non-base component, counts with a sign.
 func (u *refUnits) refParse(data string) (parseClass, *big.Rat) {
 	s := strings.TrimSpace(data)
 	if s == "" {
@@ -73,9 +73,7 @@ func (u *refUnits) refParse(data string) (parseClass, *big.Rat) {
 			frac = s[j+1 : k]
 			j = k
 		}
-		if len(intPart) > 1 && intPart[0] == '0' {
-			unspec = true
-		}
+		// (leading zeros: a count is a decimal numeral, "007" is seven)
 		// name: up to next digit
 		k := j
 		for k < n && !(s[k] >= '0' && s[k] <= '9') {
@@ -533,6 +531,10 @@ func genWellFormed(r *wk.Rand, u *refUnits, allowFrac, big bool) string {
 			cnt = "0"
 		default:
 			cnt = fmt.Sprintf("%d", 1+r.I64n([]int64{9, 99, 9999, 1000000000}[r.Intn(4)]))
+		}
+		if r.Chance(6) {
+			// leading zeros do not change a count, however many there are
+			cnt = strings.Repeat("0", 1+r.Intn([]int{3, 20, 40, 70}[r.Intn(4)])) + cnt
 		}
 		sb.WriteString(cnt)
 		if last && allowFrac && r.Chance(40) {
